@@ -380,3 +380,39 @@ func init() {
 			New: "\t\t\t\t\ts.rebuildOrderHeap()\n\t\t\t\t\tlvl = 2\n\t\t\t\t\tlit = s.chooseLit()\n\t\t\t\t} else {\n\t\t\t\t\tlvl = newLvl", Expect: ""},
 	)
 }
+
+func init() {
+	addSeeds(
+		// ---- benign refactors for the rules added after the external mutants ----
+		seed{Prop: "C09", Name: "benign-appendclause-if-chain", File: "solver/solver.go",
+			Old: "\t\tswitch s.litStatus(lit) {\n\t\tcase Sat:\n\t\t\tw := clause.Weight(i)\n\t\t\tminW += w\n\t\t\tmaxW += w\n\t\t\tclause.removeLit(i)\n\t\t\tclause.updateCardinality(-w)\n\t\tcase Unsat:\n\t\t\tclause.removeLit(i)\n\t\tdefault:\n\t\t\tmaxW += clause.Weight(i)\n\t\t\ti++\n\t\t}",
+			New: "\t\tst := s.litStatus(lit)\n\t\tif st == Sat {\n\t\t\tw := clause.Weight(i)\n\t\t\tmaxW += w\n\t\t\tminW += w\n\t\t\tclause.updateCardinality(-w)\n\t\t\tclause.removeLit(i)\n\t\t} else if st == Unsat {\n\t\t\tclause.removeLit(i)\n\t\t} else {\n\t\t\tmaxW += clause.Weight(i)\n\t\t\ti++\n\t\t}", Expect: ""},
+		seed{Prop: "C09", Name: "benign-skip-units-already-true", File: "solver/solver.go",
+			Old: "\tfor _, unit := range units {\n\t\ts.lbdStats.addLbd(1)",
+			New: "\tfor _, unit := range units {\n\t\tif s.litStatus(unit) == Sat {\n\t\t\tcontinue\n\t\t}\n\t\ts.lbdStats.addLbd(1)", Expect: ""},
+		seed{Prop: "C01", Name: "benign-snapshot-helper", File: "solver/solver.go",
+			Old:  "\tif s.status == Sat {\n\t\ts.lastModel = make(Model, len(s.model))\n\t\tcopy(s.lastModel, s.model)\n\t}\n\tif s.Verbose {\n\t\tend <- struct{}{}",
+			New:  "\tif s.status == Sat {\n\t\ts.saveModel()\n\t}\n\tif s.Verbose {\n\t\tend <- struct{}{}",
+			More: []edit{{"solver/solver.go", "// Assume adds unit literals to the solver.", "func (s *Solver) saveModel() {\n\ts.lastModel = make(Model, len(s.model))\n\tcopy(s.lastModel, s.model)\n}\n\n// Assume adds unit literals to the solver."}}, Expect: ""},
+		seed{Prop: "C04", Name: "benign-trim-helper", File: "maxsat/parser.go",
+			Old:  "\tfor res = range localRes {\n\t\tif res.Status == solver.Sat {\n\t\t\tres.Model = res.Model[:s.firstRelax] // Remove relax vars from the model\n\t\t}\n\t\tresults <- res",
+			New:  "\tfor res = range localRes {\n\t\tres = s.trim(res)\n\t\tresults <- res",
+			More: []edit{{"maxsat/parser.go", "// Enumerate does not make sense for a MAXSAT problem", "func (s *Solver) trim(res solver.Result) solver.Result {\n\tif res.Status == solver.Sat {\n\t\tres.Model = res.Model[:s.firstRelax]\n\t}\n\treturn res\n}\n\n// Enumerate does not make sense for a MAXSAT problem"}}, Expect: ""},
+		seed{Prop: "C04", Name: "trim-helper-that-does-not-trim", File: "maxsat/parser.go",
+			Old:  "\tfor res = range localRes {\n\t\tif res.Status == solver.Sat {\n\t\t\tres.Model = res.Model[:s.firstRelax] // Remove relax vars from the model\n\t\t}\n\t\tresults <- res",
+			New:  "\tfor res = range localRes {\n\t\tres = s.trim(res)\n\t\tresults <- res",
+			More: []edit{{"maxsat/parser.go", "// Enumerate does not make sense for a MAXSAT problem", "func (s *Solver) trim(res solver.Result) solver.Result {\n\tif res.Status == solver.Sat && res.Weight == 0 {\n\t\tres.Model = res.Model[:s.firstRelax]\n\t}\n\treturn res\n}\n\n// Enumerate does not make sense for a MAXSAT problem"}}, Expect: "R4.1"},
+		seed{Prop: "C15", Name: "benign-found-flag-as-helper", File: "solver/problem.go",
+			Old:  "\t\t\t\tlit2 := constr[j].Negation()\n\t\t\t\tfound := false\n\t\t\t\tfor _, lit3 := range propagates[lit2] {\n\t\t\t\t\tif lit3 == other {\n\t\t\t\t\t\tfound = true\n\t\t\t\t\t\tbreak\n\t\t\t\t\t}\n\t\t\t\t}\n\t\t\t\tif !found {",
+			New:  "\t\t\t\tlit2 := constr[j].Negation()\n\t\t\t\tfound := containsLit(propagates[lit2], other)\n\t\t\t\tif !found {",
+			More: []edit{{"solver/problem.go", "// removeBinaries removes the binary clauses", "func containsLit(lits []Lit, l Lit) bool {\n\tfor _, l2 := range lits {\n\t\tif l2 == l {\n\t\t\treturn true\n\t\t}\n\t}\n\treturn false\n}\n\n// removeBinaries removes the binary clauses"}}, Expect: ""},
+		seed{Prop: "C13", Name: "benign-opb-skip-comment-first", File: "solver/parser_pb.go",
+			Old: "\t\tif line == \"\" || line[0] == '*' {\n\t\t\tcontinue\n\t\t}", New: "\t\tif line == \"\" {\n\t\t\tcontinue\n\t\t}\n\t\tif line[0] == '*' {\n\t\t\tcontinue\n\t\t}", Expect: ""},
+		seed{Prop: "C18", Name: "benign-pbstring-append-lines", File: "solver/solver.go",
+			Old: "\tclauses := make([]string, len(s.wl.origClauses)+len(s.wl.learned))\n\tfor i, c := range s.wl.origClauses {\n\t\tclauses[i] = c.PBString()\n\t}\n\tfor i, c := range s.wl.learned {\n\t\tclauses[i+len(s.wl.origClauses)] = c.PBString()\n\t}",
+			New: "\tclauses := make([]string, 0, len(s.wl.origClauses)+len(s.wl.learned))\n\tfor _, c := range s.wl.origClauses {\n\t\tclauses = append(clauses, c.PBString())\n\t}\n\tfor _, c := range s.wl.learned {\n\t\tclauses = append(clauses, c.PBString())\n\t}", Expect: ""},
+		seed{Prop: "C19", Name: "benign-count-with-len-of-collected-models", File: "main.go",
+			Old: "\tnb := 0\n\tfor range models {\n\t\tnb++\n\t\tif verbose {\n\t\t\tfmt.Printf(\"c %d models found\\n\", nb)\n\t\t}\n\t}\n\tfmt.Println(nb)",
+			New: "\tnb := 0\n\tfor m := range models {\n\t\t_ = m\n\t\tnb += 1\n\t\tif verbose {\n\t\t\tfmt.Printf(\"c %d models found\\n\", nb)\n\t\t}\n\t}\n\tfmt.Println(nb)", Expect: ""},
+	)
+}
